@@ -300,21 +300,25 @@ CHECKS["C16"] = dict(
 
 # Widenings after seeded rounds 6 and 7 ("the value / object under test has been used before"), appended to the claim texts
 ALSO = {
+    "C16": "Also: values built as plain str + looked-at value; an empty but formatted run inside a gap; the same object wrapped again after the caller edited the list the first call returned.",
+    "C10": "Also: values cut with [] out of a longer value that had been measured.",
+    "C09": "Also: a second splice on the same receiver; receivers that are pieces of splitlines(True) of a looked-at value.",
+    "C06": "Also: sequences of lookups on ONE object (a value in which a run occurs twice); a plain str that looks like an escape sequence on the left of +.",
     "C01": "Also: every value of a derived pool (each public operation applied to base values whose views were memoised first) must display its own runs; concrete probe runs that start with zero-width characters.",
-    "C02": "Also: rows with blank runs whose formatting is visible (inverted / underlined coloured blanks), full-width rows ending in plain blanks, the empty array between two frames, and one list object edited in place between renders.",
-    "C03": "Also: single characters are reported as themselves under CURSES and BYTES naming too, and an encoding behaves the same under every name the codec registry knows it by (UTF-8 / U8, ANSI_X3.4-1968 / 646, iso8859-1 / L1).",
-    "C04": "Also: regions that start at or beyond the right edge (zero-column arrays included) and single-cell assignments a[r, c] with a block that does not have exactly one row - rejected, no cell changed.",
+    "C02": "Also: rows with blank runs whose formatting is visible (inverted / underlined coloured blanks), full-width rows ending in plain blanks, the empty array between two frames, and one list object edited in place between renders. One FSArray edited row by row between renders; the same long rows rendered at every width.",
+    "C03": "Also: single characters are reported as themselves under CURSES and BYTES naming too, and an encoding behaves the same under every name the codec registry knows it by (UTF-8 / U8, ANSI_X3.4-1968 / 646, iso8859-1 / L1). The decoder under an incremental-codec rewrite is followed (stateful codecs live on between calls); an Input left and re-entered with keys buffered; Inputs used while the locale's encoding changes.",
+    "C04": "Also: regions that start at or beyond the right edge (zero-column arrays included) and single-cell assignments a[r, c] with a block that does not have exactly one row - rejected, no cell changed. What a read returns belongs to the reader (editing it, or growing the array afterwards, does not reach the other); fsarray of FmtStr lines with formatting arguments.",
     "C05": "Also: from_str(str(f)) against f for every value of the derived pool (operations on base values that were rendered first).",
-    "C07": "Also: full-width rows ending in plain blanks after longer text, and one list object edited in place between renders.",
-    "C08": "Also: bytes already waiting in the terminal's input queue when the context is entered (the OS model discards them on TCSAFLUSH, as a tty does).",
-    "C12": "Also: every helper context manager is entered and left a second time from a different starting state - leaving restores what THAT entering changed.",
-    "C13": "Also: what a value displays does not depend on look-alike values displayed before it in the same process (0 / False, 1 / True, 31 / 31.0 as attribute values; functools.lru_cache is modelled with its == / hash keys).",
-    "C14": "Also: every fmtfuncs helper still does what its name says after calls with further positional names (accepted or rejected), and shared_atts answers the same after the caller edited the dict it got from an earlier call.",
-    "C15": "Also: receivers arrived at through a history (plain str + looked-at value, looked-at value + plain str) for every method of the generated pool.",
-    "C17": "Also: ordinary text that means something to str formatting (%s, 50% done, {0}) next to sequences that force the error / fallback path.",
-    "C18": "Also: extra_bytes_callback attached, replaced or removed after construction - the callback in place at the time of the query counts.",
-    "C19": "Also: every value of the derived pool equals, hashes like and repr-evaluates to a freshly built value with the same runs; repr of runs whose text holds an escape character that is not an escape sequence.",
-    "C20": "Also: a burst read in one go (a paste event) under each naming mode - bytes naming gives the bytes of each keypress, all modes cut alike.",
+    "C07": "Also: full-width rows ending in plain blanks after longer text, and one list object edited in place between renders. Rows holding a double-width or combining character and the same row extended (the terminal model lays characters out by width).",
+    "C08": "Also: bytes already waiting in the terminal's input queue when the context is entered (the OS model discards them on TCSAFLUSH, as a tty does). A wake-up byte left over from a SIGINT while a trigger fires during the request's second wait; the context left and re-entered.",
+    "C12": "Also: every helper context manager is entered and left a second time from a different starting state - leaving restores what THAT entering changed. An Input entered again on the other kind of thread.",
+    "C13": "Also: what a value displays does not depend on look-alike values displayed before it in the same process (0 / False, 1 / True, 31 / 31.0 as attribute values; functools.lru_cache is modelled with its == / hash keys). A run's text / attributes cannot be re-bound (property without setter); setslice_with_length, copy, splitlines(True) among the operations.",
+    "C14": "Also: every fmtfuncs helper still does what its name says after calls with further positional names (accepted or rejected), and shared_atts answers the same after the caller edited the dict it got from an earlier call. Look-alike FmtStr inputs (same display, different attributes) formatted one after the other; tuple-valued and mixed-case contradictory specifications.",
+    "C15": "Also: receivers arrived at through a history (plain str + looked-at value, looked-at value + plain str) for every method of the generated pool. Receivers of the derived pool (every public operation on looked-at values), receivers whose shared_atts answer the caller edited, join of a one-shot iterator.",
+    "C17": "Also: ordinary text that means something to str formatting (%s, 50% done, {0}) next to sequences that force the error / fallback path. Conversions after other conversions in the same process (a FmtStr holding raw escape text, a string cut inside a parameter list, repeats).",
+    "C18": "Also: extra_bytes_callback attached, replaced or removed after construction - the callback in place at the time of the query counts. A stand-alone position query between render and diff; the terminal made taller; a further report left unread after the call.",
+    "C19": "Also: every value of the derived pool equals, hashes like and repr-evaluates to a freshly built value with the same runs; repr of runs whose text holds an escape character that is not an escape sequence. repr evaluated after the helpers were called with extra names earlier in the process.",
+    "C20": "Also: a burst read in one go (a paste event) under each naming mode - bytes naming gives the bytes of each keypress, all modes cut alike. One Input whose keynames attribute is set to each mode in turn; two pastes in one process.",
 }
 
 NOT_APPLICABLE = []
